@@ -43,8 +43,9 @@ def base_scenarios():
     # -- k >= 3 growth steps touching ONE address: with early GROW / DEFER the notifications 2, 3 (, 4) are issued
     #    while earlier updates of that address are still in flight or queued behind each other
     add('fund-same-address-x3', [tx('T1', 'block', ['ext'], [['r0', 50, pay]])],
-        [tx('T2', 'block', ['ext'], [['r0', 30, pay]])], [tx('T3', 'mempool', ['ext'], [['r0', 10, pay]])],
-        repeat=True)
+        [tx('T2', 'block', ['ext'], [['r0', 30, pay]])], [tx('T3', 'mempool', ['ext'], [['r0', 10, pay]])])
+    # (x3 is in families A and B only: every family C/D schedule of x3 is a prefix of the x4 schedule with the
+    #  same stage and choices, which ends in the same state when only GROW(3) is left)
     add('fund-same-address-x4', [tx('T1', 'block', ['ext'], [['r0', 50, pay]])],
         [tx('T2', 'block', ['ext'], [['r0', 30, pay]])], [tx('T3', 'mempool', ['ext'], [['r0', 10, pay]])],
         [tx('T4', 'mempool', ['ext'], [['r0', 5, pay]])], repeat=True)
@@ -537,9 +538,13 @@ def run(ctx):
               f'{len(base)} programs over the grammar fund / spend+change / self-spend over two addresses / claim, '
               'update, abandon, support, tip / re-spend of change / mempool then confirmation (heights 0, -1) / '
               'funds at gap distance g-1, g, g+1, chain reaction / both chains / re-spent third-party output, each '
-              'growing in 1-4 stages. A: every chain x {none + 14 third-party script kinds} x every stage x every '
+              'growing in 1-4 stages. A: every chain x {none + 15 third-party script kinds} x every stage x every '
               'order of the stage\'s notification set + the restore path (whole chain present at subscribe time), '
-              'default schedule. B: every chain x every stage x every order + '
+              'default schedule; plus the own-output dimension: a chain whose second transaction pays a WALLET address '
+              'with claim_name / update_claim / support+data x 13 payloads (valid, 3 legacy encodings, unknown JSON, '
+              'text, empty, 1 byte, random, truncated, a Support message, 4 KiB) x ascii name, the same kinds x '
+              'non-UTF-8 name x {valid, empty} payload, plain support x both names, payment + purchase data x 5 '
+              'payloads; the reference classifies by script only. B: every chain x every stage x every order + '
               'restore (quick: restore of the complete chain only), every schedule with deviation cost <= 1 (early injection at any iteration boundary, '
               'non-oldest delivery, deferral of the oldest reply, early chain growth). C (thorough): deep chains, '
               'cost <= 2 with early injection costing 2. D (quick; part of C in thorough): the chains with 3-4 growth '
@@ -557,6 +562,7 @@ def run(ctx):
                 'items': fam, 'chains': len(base)},
         bound_completed=1 if ctx.quick else 2,   # quick: 2 on family D
         alphabet={'chains': [s['name'] for s in base], 'third_party_output_kinds': ['none'] + H.THIRD_KINDS,
+                  'own_output_variants': ['/'.join(v) for v in H.own_variants()],
                   'modes': ['notify (stage by stage)', 'restore (whole chain at subscribe time)'],
                   'deviations': ['early injection of a job/reply/notification/growth at an iteration boundary',
                                  'non-oldest delivery', 'deferral of the oldest reply or notification',
